@@ -15,6 +15,8 @@ Open Scope Q_scope.
 
 
 def run(res, replay=None):
+    # structural tie of the argument guards at the entry points (their conditions, exception kinds and ORDER): translate the CURRENT source and re-check proofs/GenGuardsEquiv.v
+    import translate_step; (res.proof is not None) and translate_step.run(res.proof, pid=res.pid, tie='guards')
     rng = random.Random(res.seed)
     res.rule = ('mutation stream: single-epoch configurations (n<=4, thorough n<=5; 1-2 demes; three models; dyadic theta '
                 'in {0, 1/16, 1/4, 1, 2}; plus Beta/Dirac with n = 5..7 in one deme); every unfolded configuration with <= 3 (thorough 4) mutations: probability '
